@@ -146,60 +146,79 @@ func intBits(b *types.Basic) int {
 // A load of an address has the path of the address.
 func Path(v ssa.Value) string { return pathDepth(v, 0) }
 
-func pathDepth(v ssa.Value, d int) string {
+// pather renders access paths; Bind replaces parameters of a callee by the arguments of one call (so that a value inside
+// a helper is named in the caller's vocabulary), AllConv also looks through narrowing integer conversions.
+type pather struct {
+	Bind    map[*ssa.Parameter]ssa.Value
+	AllConv bool
+}
+
+var plainPather = &pather{}
+
+// PathBound is Path with the parameters in bind replaced by their arguments; allConv strips every integer conversion.
+func PathBound(v ssa.Value, bind map[*ssa.Parameter]ssa.Value, allConv bool) string {
+	return (&pather{bind, allConv}).path(v, 0)
+}
+
+func pathDepth(v ssa.Value, d int) string { return plainPather.path(v, d) }
+
+func (pt *pather) path(v ssa.Value, d int) string {
 	if d > 24 || v == nil {
 		return "%?"
 	}
 	switch x := v.(type) {
 	case *ssa.Parameter:
-		return x.Name()
+		if a, ok := pt.Bind[x]; ok {
+			return (&pather{nil, pt.AllConv}).path(a, d+1)
+		}
+		return ParamName(x)
 	case *ssa.FreeVar:
 		if b := FreeVarBinding(x); b != nil {
-			return pathDepth(b, d+1)
+			return pt.path(b, d+1)
 		}
-		return x.Name()
+		return FreeVarName(x)
 	case *ssa.Global:
 		if x.Pkg != nil {
-			return x.Pkg.Pkg.Name() + "." + x.Name()
+			return x.Pkg.Pkg.Name() + "." + GlobalName(x)
 		}
-		return x.Name()
+		return GlobalName(x)
 	case *ssa.Alloc:
 		if s := cellSingleStore(x); s != nil {
 			if _, ok := s.(*ssa.Parameter); ok {
-				return pathDepth(s, d+1)
+				return pt.path(s, d+1)
 			}
 		}
 		if x.Comment != "" {
-			return x.Comment
+			return AllocName(x)
 		}
 		return "%" + x.Name()
 	case *ssa.FieldAddr:
-		return pathDepth(x.X, d+1) + "." + fieldName(x.X.Type(), x.Field)
+		return pt.path(x.X, d+1) + "." + fieldName(x.X.Type(), x.Field)
 	case *ssa.Field:
-		return pathDepth(x.X, d+1) + "." + fieldName(x.X.Type(), x.Field)
+		return pt.path(x.X, d+1) + "." + fieldName(x.X.Type(), x.Field)
 	case *ssa.IndexAddr:
-		return pathDepth(x.X, d+1) + "[" + idxString(x.Index) + "]"
+		return pt.path(x.X, d+1) + "[" + idxString(x.Index) + "]"
 	case *ssa.Index:
-		return pathDepth(x.X, d+1) + "[" + idxString(x.Index) + "]"
+		return pt.path(x.X, d+1) + "[" + idxString(x.Index) + "]"
 	case *ssa.Lookup:
-		return pathDepth(x.X, d+1) + "[" + idxString(x.Index) + "]"
+		return pt.path(x.X, d+1) + "[" + idxString(x.Index) + "]"
 	case *ssa.UnOp:
 		if x.Op == token.MUL {
-			return pathDepth(x.X, d+1)
+			return pt.path(x.X, d+1)
 		}
 	case *ssa.ChangeType:
-		return pathDepth(x.X, d+1)
+		return pt.path(x.X, d+1)
 	case *ssa.ChangeInterface:
-		return pathDepth(x.X, d+1)
+		return pt.path(x.X, d+1)
 	case *ssa.MakeInterface:
-		return pathDepth(x.X, d+1)
+		return pt.path(x.X, d+1)
 	case *ssa.Convert:
-		if widening(x.X.Type(), x.Type()) {
-			return pathDepth(x.X, d+1)
+		if widening(x.X.Type(), x.Type()) || (pt.AllConv && isIntType(x.X.Type()) && isIntType(x.Type())) {
+			return pt.path(x.X, d+1)
 		}
 	case *ssa.Slice:
 		if x.Low == nil && x.High == nil {
-			return pathDepth(x.X, d+1)
+			return pt.path(x.X, d+1)
 		}
 	case *ssa.Const:
 		if x.Value == nil {
@@ -208,20 +227,20 @@ func pathDepth(v ssa.Value, d int) string {
 		return x.Value.ExactString()
 	case *ssa.Call:
 		if b, ok := x.Call.Value.(*ssa.Builtin); ok && (b.Name() == "len" || b.Name() == "cap") {
-			return b.Name() + "(" + pathDepth(x.Call.Args[0], d+1) + ")"
+			return b.Name() + "(" + pt.path(x.Call.Args[0], d+1) + ")"
 		}
 		if cal := x.Call.StaticCallee(); cal != nil {
 			var args []string
 			for _, a := range x.Call.Args {
-				args = append(args, pathDepth(a, d+1))
+				args = append(args, pt.path(a, d+1))
 			}
 			return QualName(cal) + "(" + strings.Join(args, ",") + ")"
 		}
 		if x.Call.IsInvoke() {
-			return pathDepth(x.Call.Value, d+1) + "." + x.Call.Method.Name() + "()"
+			return pt.path(x.Call.Value, d+1) + "." + x.Call.Method.Name() + "()"
 		}
 	case *ssa.Extract:
-		return pathDepth(x.Tuple, d+1) + "#" + fmt.Sprint(x.Index)
+		return pt.path(x.Tuple, d+1) + "#" + fmt.Sprint(x.Index)
 	}
 	return "%" + v.Name()
 }
@@ -238,7 +257,7 @@ func fieldName(t types.Type, i int) string {
 		t = p.Elem()
 	}
 	if s, ok := t.Underlying().(*types.Struct); ok && i < s.NumFields() {
-		return s.Field(i).Name()
+		return FieldVarName(s.Field(i))
 	}
 	return fmt.Sprintf("f%d", i)
 }
@@ -275,9 +294,9 @@ func TypedPath(v ssa.Value) string {
 	name := ""
 	switch r := root.(type) {
 	case *ssa.Parameter:
-		name = r.Name()
+		name = ParamName(r)
 	case *ssa.FreeVar:
-		name = r.Name()
+		name = FreeVarName(r)
 	default:
 		return p
 	}
@@ -295,7 +314,7 @@ func typeBaseName(t types.Type) string {
 			t = x.Elem()
 			continue
 		case *types.Named:
-			return x.Obj().Name()
+			return TypeNameOf(x.Obj())
 		}
 		return ""
 	}
@@ -418,9 +437,57 @@ func Guards(b *ssa.BasicBlock) []Guard {
 			continue
 		}
 		if d.Succs[0] == n && d.Succs[1] != n {
-			out = append(out, Guard{iff.Cond, true, iff})
+			out = append(out, expandBoolGuard(Guard{iff.Cond, true, iff}, 0)...)
 		} else if d.Succs[1] == n && d.Succs[0] != n {
-			out = append(out, Guard{iff.Cond, false, iff})
+			out = append(out, expandBoolGuard(Guard{iff.Cond, false, iff}, 0)...)
+		}
+	}
+	return out
+}
+
+// expandBoolGuard looks through a boolean that was materialised from a short-circuit expression (`case a && b:`,
+// `ok := a || b; if ok`): when every incoming edge of the phi but one carries the opposite constant, the branch implies
+// that control came in by that one edge - so the facts of that edge hold as well.
+func expandBoolGuard(g Guard, depth int) []Guard {
+	out := []Guard{g}
+	if depth > 4 {
+		return out
+	}
+	cond, pol := g.Cond, g.Pol
+	for {
+		if u, ok := cond.(*ssa.UnOp); ok && u.Op == token.NOT {
+			cond, pol = u.X, !pol
+			continue
+		}
+		break
+	}
+	phi, ok := cond.(*ssa.Phi)
+	if !ok {
+		return out
+	}
+	live := -1
+	for i, e := range phi.Edges {
+		if c, isC := e.(*ssa.Const); isC && c.Value != nil && c.Value.Kind() == constant.Bool && constant.BoolVal(c.Value) != pol {
+			continue
+		}
+		if live >= 0 {
+			return out // two edges can produce this outcome
+		}
+		live = i
+	}
+	if live < 0 {
+		return out
+	}
+	pred := phi.Block().Preds[live]
+	if _, isC := phi.Edges[live].(*ssa.Const); !isC {
+		out = append(out, expandBoolGuard(Guard{phi.Edges[live], pol, g.If}, depth+1)...)
+	}
+	out = append(out, Guards(pred)...)
+	if iff, ok := pred.Instrs[len(pred.Instrs)-1].(*ssa.If); ok && len(pred.Succs) == 2 && pred.Succs[0] != pred.Succs[1] {
+		if pred.Succs[0] == phi.Block() {
+			out = append(out, expandBoolGuard(Guard{iff.Cond, true, iff}, depth+1)...)
+		} else if pred.Succs[1] == phi.Block() {
+			out = append(out, expandBoolGuard(Guard{iff.Cond, false, iff}, depth+1)...)
 		}
 	}
 	return out
@@ -489,8 +556,10 @@ func EdgeAtoms(b *ssa.BasicBlock, idx int) []Atom {
 		return out
 	}
 	if iff, ok := b.Instrs[len(b.Instrs)-1].(*ssa.If); ok && len(b.Succs) == 2 && b.Succs[0] != b.Succs[1] {
-		a, _ := AtomOf(Guard{iff.Cond, idx == 0, iff})
-		out = append(out, a)
+		for _, g := range expandBoolGuard(Guard{iff.Cond, idx == 0, iff}, 0) {
+			a, _ := AtomOf(g)
+			out = append(out, a)
+		}
 	}
 	return out
 }
@@ -775,4 +844,292 @@ func WithClosures(fn *ssa.Function) []*ssa.Function {
 		out = append(out, WithClosures(a)...)
 	}
 	return out
+}
+
+// GetterLoad recognises a call of a module function that does nothing but return the current value of one field
+// reachable from a parameter (taking and releasing a sync mutex around the load is allowed): it returns the field
+// address inside the callee, so that a caller can treat `x.get()` like the load `x.f` it was extracted from.
+func GetterLoad(v ssa.Value) (addr ssa.Value, ok bool) {
+	call, isCall := StripConv(v).(*ssa.Call)
+	if !isCall {
+		return nil, false
+	}
+	fn := call.Call.StaticCallee()
+	if fn == nil || !InModule(fn) || len(fn.Blocks) == 0 || fn.Signature.Results().Len() != 1 {
+		return nil, false
+	}
+	var path string
+	for _, b := range fn.Blocks {
+		for _, in := range b.Instrs {
+			switch x := in.(type) {
+			case *ssa.Store, *ssa.MapUpdate, *ssa.Send, *ssa.Go, *ssa.Defer, *ssa.Panic:
+				return nil, false
+			case *ssa.Call:
+				cal := x.Call.StaticCallee()
+				if cal == nil {
+					return nil, false
+				}
+				switch FullName(cal) {
+				case "(*sync.Mutex).Lock", "(*sync.Mutex).Unlock", "(*sync.RWMutex).RLock", "(*sync.RWMutex).RUnlock",
+					"(*sync.RWMutex).Lock", "(*sync.RWMutex).Unlock":
+				default:
+					return nil, false
+				}
+			case *ssa.Return:
+				ld, isLoad := StripConv(x.Results[0]).(*ssa.UnOp)
+				if !isLoad || ld.Op != token.MUL {
+					return nil, false
+				}
+				if _, isField := ld.X.(*ssa.FieldAddr); !isField {
+					return nil, false
+				}
+				if _, isPar := pathRoot(ld.X, 0).(*ssa.Parameter); !isPar {
+					return nil, false
+				}
+				tp := TypedPath(ld.X)
+				if path != "" && tp != path {
+					return nil, false
+				}
+				path, addr = tp, ld.X
+			}
+		}
+	}
+	return addr, addr != nil
+}
+
+// ValueLeaves enumerates the values that may flow into v, looking through phis, value-preserving conversions and calls
+// of module functions (a returned parameter is replaced by the argument of that call).  Leaves are constants, loads,
+// calls that are not expanded, parameters of the outermost function, ...  Used by rules that ask "which values can this
+// operand take" so that moving the selection into a helper does not change the answer.
+func ValueLeaves(v ssa.Value) []ssa.Value {
+	var out []ssa.Value
+	seen := map[ssa.Value]bool{}
+	var walk func(v ssa.Value, args map[*ssa.Parameter]ssa.Value, d int)
+	walk = func(v ssa.Value, args map[*ssa.Parameter]ssa.Value, d int) {
+		v = StripConv(v)
+		if d > 12 || v == nil {
+			out = append(out, v)
+			return
+		}
+		if seen[v] {
+			return
+		}
+		seen[v] = true
+		switch x := v.(type) {
+		case *ssa.Phi:
+			for _, e := range x.Edges {
+				walk(e, args, d+1)
+			}
+			return
+		case *ssa.Parameter:
+			if a, ok := args[x]; ok {
+				walk(a, args, d+1)
+				return
+			}
+		case *ssa.Call:
+			fn := x.Call.StaticCallee()
+			if fn != nil && InModule(fn) && len(fn.Blocks) > 0 && fn.Signature.Results().Len() == 1 && !x.Call.IsInvoke() {
+				inner := map[*ssa.Parameter]ssa.Value{}
+				for k, a := range args {
+					inner[k] = a
+				}
+				for i, p := range fn.Params {
+					if i < len(x.Call.Args) {
+						inner[p] = x.Call.Args[i]
+					}
+				}
+				for _, r := range Returns(fn) {
+					walk(r.Results[0], inner, d+1)
+				}
+				return
+			}
+		}
+		out = append(out, v)
+	}
+	walk(v, map[*ssa.Parameter]ssa.Value{}, 0)
+	return out
+}
+
+// ValueCase is one value an operand can take together with the atoms that hold when it does.
+type ValueCase struct {
+	Val   ssa.Value
+	Atoms []Atom
+}
+
+// ValueCases splits an operand used in block use into its cases: a phi contributes one case per incoming edge (with the
+// atoms of that edge), anything else is a single case under the guards of the use.
+func ValueCases(v ssa.Value, use *ssa.BasicBlock) []ValueCase {
+	var out []ValueCase
+	var walk func(v ssa.Value, atoms []Atom, d int)
+	walk = func(v ssa.Value, atoms []Atom, d int) {
+		phi, ok := v.(*ssa.Phi)
+		if !ok || d > 6 {
+			out = append(out, ValueCase{v, atoms})
+			return
+		}
+		for i, e := range phi.Edges {
+			pred := phi.Block().Preds[i]
+			idx := 0
+			for k, s := range pred.Succs {
+				if s == phi.Block() {
+					idx = k
+				}
+			}
+			walk(e, append(append([]Atom(nil), atoms...), EdgeAtoms(pred, idx)...), d+1)
+		}
+	}
+	walk(v, GuardAtoms(use), 0)
+	return out
+}
+
+func isIntType(t types.Type) bool {
+	b, ok := t.Underlying().(*types.Basic)
+	return ok && b.Info()&types.IsInteger != 0
+}
+
+// RCase is one value an operand can take, named in the vocabulary of the function that uses it, with the comparison
+// atoms that hold when it does.
+type RCase struct {
+	Val   string
+	ValV  ssa.Value
+	Atoms []Atom
+}
+
+// ResultCases splits an operand into its cases like ValueCases, and also looks into a call of a module helper with one
+// result: each return of the helper is a case, with the helper's parameters replaced by the call's arguments.  allConv
+// ignores integer conversions when naming values.
+func ResultCases(v ssa.Value, use *ssa.BasicBlock, allConv bool) []RCase {
+	var out []RCase
+	render := func(atoms []Atom, bind map[*ssa.Parameter]ssa.Value) []Atom {
+		var r []Atom
+		for _, a := range atoms {
+			b := a
+			if a.LV != nil {
+				b.L = PathBound(a.LV, bind, allConv)
+			}
+			if a.RV != nil {
+				b.R = PathBound(a.RV, bind, allConv)
+			}
+			r = append(r, b)
+		}
+		return r
+	}
+	var walk func(v ssa.Value, use *ssa.BasicBlock, atoms []Atom, bind map[*ssa.Parameter]ssa.Value, d int)
+	walk = func(v ssa.Value, use *ssa.BasicBlock, atoms []Atom, bind map[*ssa.Parameter]ssa.Value, d int) {
+		sv := v
+		for {
+			sv = StripConv(sv)
+			if cv, ok := sv.(*ssa.Convert); ok && allConv && isIntType(cv.X.Type()) && isIntType(cv.Type()) {
+				sv = cv.X
+				continue
+			}
+			break
+		}
+		if d <= 6 {
+			switch x := sv.(type) {
+			case *ssa.Phi:
+				for i, e := range x.Edges {
+					pred := x.Block().Preds[i]
+					idx := 0
+					for k, s := range pred.Succs {
+						if s == x.Block() {
+							idx = k
+						}
+					}
+					walk(e, nil, append(append([]Atom(nil), atoms...), render(EdgeAtoms(pred, idx), bind)...), bind, d+1)
+				}
+				return
+			case *ssa.Call:
+				fn := x.Call.StaticCallee()
+				if fn != nil && bind == nil && InModule(fn) && len(fn.Blocks) > 0 && fn.Signature.Results().Len() == 1 && !x.Call.IsInvoke() {
+					inner := map[*ssa.Parameter]ssa.Value{}
+					for i, p := range fn.Params {
+						if i < len(x.Call.Args) {
+							inner[p] = x.Call.Args[i]
+						}
+					}
+					for _, r := range Returns(fn) {
+						walk(r.Results[0], r.Block(), append([]Atom(nil), atoms...), inner, d+1)
+					}
+					return
+				}
+			}
+		}
+		if use != nil {
+			atoms = append(atoms, render(GuardAtoms(use), bind)...)
+		}
+		out = append(out, RCase{PathBound(sv, bind, allConv), sv, atoms})
+	}
+	walk(v, use, nil, nil, 0)
+	return out
+}
+
+// Resolver names values across small helpers: a call (or one result of a call) of a module function with a single
+// return statement stands for the returned expression, and a parameter of such a helper stands for the argument it was
+// called with.  Rules that ask "where does this value come from" use it so that moving an expression into a helper
+// does not change the answer.  One Resolver serves one question; a helper reached with two different arguments for one
+// parameter is not expanded.
+type Resolver struct {
+	bind    map[*ssa.Parameter]ssa.Value
+	AllConv bool // also look through integer conversions
+}
+
+func NewResolver(allConv bool) *Resolver {
+	return &Resolver{bind: map[*ssa.Parameter]ssa.Value{}, AllConv: allConv}
+}
+
+func (r *Resolver) expand(c *ssa.Call) *ssa.Return {
+	fn := c.Call.StaticCallee()
+	if fn == nil || c.Call.IsInvoke() || !InModule(fn) || len(fn.Blocks) == 0 || len(fn.Blocks) > 6 {
+		return nil
+	}
+	rets := Returns(fn)
+	if len(rets) != 1 {
+		return nil
+	}
+	for i, p := range fn.Params {
+		if i >= len(c.Call.Args) {
+			return nil
+		}
+		if old, ok := r.bind[p]; ok && old != c.Call.Args[i] {
+			return nil
+		}
+	}
+	for i, p := range fn.Params {
+		r.bind[p] = c.Call.Args[i]
+	}
+	return rets[0]
+}
+
+// V resolves v to the value it stands for.
+func (r *Resolver) V(v ssa.Value) ssa.Value {
+	for i := 0; i < 16 && v != nil; i++ {
+		v = StripConv(v)
+		switch x := v.(type) {
+		case *ssa.Convert:
+			if r.AllConv && isIntType(x.X.Type()) && isIntType(x.Type()) {
+				v = x.X
+				continue
+			}
+		case *ssa.Parameter:
+			if a, ok := r.bind[x]; ok {
+				v = a
+				continue
+			}
+		case *ssa.Call:
+			if ret := r.expand(x); ret != nil && len(ret.Results) == 1 {
+				v = ReturnOperand(ret, 0)
+				continue
+			}
+		case *ssa.Extract:
+			if c, ok := x.Tuple.(*ssa.Call); ok {
+				if ret := r.expand(c); ret != nil && x.Index < len(ret.Results) {
+					v = ReturnOperand(ret, x.Index)
+					continue
+				}
+			}
+		}
+		return v
+	}
+	return v
 }
